@@ -5,5 +5,6 @@ CONSTANTS
   MaxChain = 1
   Pads = {0,1,2,3,4,5,6,7}
   Caps = {24,16384}
+  MaxRead = 0
 INVARIANTS SegInv NotStuck CrossInv
 CHECK_DEADLOCK FALSE
